@@ -94,9 +94,32 @@ def _slice(assertions, depth):
     return [hyps[i] for i in sorted(chosen)] + [goal]
 
 
-def _solve_one(job):
-    idx, text, timeout_ms, tactic = job
+_PREFER = None
+
+
+def preferred_backends():
+    """obligation name -> the stage that discharged it on the reference tree (ledger.json).  Trying
+    that stage first, with a generous limit, makes the verdict on unchanged code independent of how
+    many cheaper stages time out under load; it never changes what counts as proved."""
+    global _PREFER
+    if _PREFER is None:
+        _PREFER = {}
+        try:
+            import json
+            with open(os.path.join(os.path.dirname(os.path.dirname(os.path.abspath(__file__))), "ledger.json")) as f:
+                for name, e in json.load(f).get("obligations", {}).items():
+                    if e.get("backend"):
+                        _PREFER[name] = e["backend"]
+        except Exception:
+            _PREFER = {}
+    return _PREFER
+
+
+def _solve_one(job, stage_s=2, cvc5_s=6):
+    idx, text, timeout_ms, tactic = job[:4]
+    prefer = job[4] if len(job) > 4 else None
     t0 = time.time()
+    res5 = None
     try:
         s = z3.Solver()
         s.set("timeout", timeout_ms)
@@ -121,6 +144,25 @@ def _solve_one(job):
             stages += [("ground+ax", ground + hyps[len(hyps) - n_ax:] + [goal])]
             if len(hyps) > 12:
                 stages += [("slice1+ax", _slice(hyps + [goal], 1))]
+        if prefer:
+            # the stage that discharged this obligation on the reference tree goes first
+            first = [(l, sub) for l, sub in stages if "z3(%s)" % l == prefer and len(sub) < len(asserts)]
+            if first:
+                s1 = z3.Solver()
+                s1.add(*first[0][1])
+                r1, _m, _why = _z3_cli(s1.to_smt2(), 20, want_model=False)
+                if r1 == "unsat":
+                    return idx, "unsat", None, time.time() - t0, prefer
+            elif prefer == "cvc5":
+                res5, _t5 = _cvc5(text, 20)
+                if res5 == "unsat":
+                    return idx, "unsat", None, time.time() - t0, "cvc5"
+            elif prefer == "z3":
+                r, model, reason = _z3_cli(text, max(2, timeout_ms // 1000))
+                if r == "unsat":
+                    return idx, "unsat", None, time.time() - t0, "z3"
+                if r == "sat":
+                    return idx, "sat", model, time.time() - t0, "z3"
         for label, sub in stages:
             if len(sub) >= len(asserts):
                 continue
@@ -128,12 +170,12 @@ def _solve_one(job):
             s1.add(*sub)
             # every solver call is a separate process with a hard limit: z3's soft timeout /
             # rlimit are not always honoured inside nonlinear arithmetic
-            r1, _m, _why = _z3_cli(s1.to_smt2(), 2, want_model=False)
+            r1, _m, _why = _z3_cli(s1.to_smt2(), stage_s, want_model=False)
             if r1 == "unsat":
                 return idx, "unsat", None, time.time() - t0, "z3(%s)" % label
         # second solver early: cvc5 decides in well under a second several quantified
         # obligations (minimum == recurrence) that z3 only finds late or not at all
-        res5, _t5 = _cvc5(text, 6)
+        res5, _t5 = _cvc5(text, cvc5_s)
         if res5 == "unsat":
             return idx, "unsat", None, time.time() - t0, "cvc5"
         # the full query runs in a separate z3 process with a *hard* time limit (z3's soft
@@ -277,7 +319,8 @@ def discharge_texts(obligations, timeout_s=20, nproc=None):
         elif ob.get("trivial"):
             results[i] = {"status": "unsat", "model": None, "time_s": 0.0, "backend": "z3-simplify"}
         else:
-            jobs.append((i, ob["smt2"], int(timeout_s * 1000), int(ob.get("n_axioms", 0))))
+            jobs.append((i, ob["smt2"], int(timeout_s * 1000), int(ob.get("n_axioms", 0)),
+                         preferred_backends().get(ob.get("name"))))
     nproc = nproc or NPROC
     if len(jobs) <= 2 or nproc <= 1:
         outs = [_solve_one(j) for j in jobs]
@@ -288,8 +331,8 @@ def discharge_texts(obligations, timeout_s=20, nproc=None):
         results[idx] = {"status": status, "model": model, "time_s": round(t, 3), "backend": backend}
     # second round for the unknowns: longer budget, another seed; then a candidate
     # counterexample from the quantifier-free relaxation (for the replay, never a verdict)
-    retry = [(i, obligations[i]["smt2"], int(timeout_s * 3000), 17) for i, r in enumerate(results)
-             if r["status"] == "unknown"]
+    retry = [(i, obligations[i]["smt2"], int(timeout_s * 3000), 17, int(obligations[i].get("n_axioms", 0)))
+             for i, r in enumerate(results) if r["status"] == "unknown"]
     if retry:
         with mp.get_context("fork").Pool(min(nproc, len(retry), 8)) as pool:
             outs = pool.map(_solve_retry, retry, chunksize=1)
@@ -316,9 +359,14 @@ def _has_quantifier(e, cache):
 
 
 def _solve_retry(job):
-    idx, text, timeout_ms, seed = job
+    idx, text, timeout_ms, seed = job[:4]
     t0 = time.time()
     try:
+        # every stage again with a much larger budget (an obligation that a hypothesis slice proves in
+        # one second on a quiet machine must not become "no longer provable" on a loaded one)
+        i2, st2, m2, _t2, be2 = _solve_one((idx, text, timeout_ms, job[4] if len(job) > 4 else None), stage_s=20, cvc5_s=40)
+        if st2 in ("unsat", "sat"):
+            return idx, st2, m2, time.time() - t0, be2 + "(retry)"
         r, model, reason = _z3_cli(text, max(5, timeout_ms // 1000), seed=seed)
         if r == "unsat":
             return idx, "unsat", None, time.time() - t0, "z3(retry)"
